@@ -340,6 +340,13 @@ def index(eng, st, base: V, idx: V, node):
                     return [(st, eng.import_const(obj[iv.as_long()], base.name))]
                 except IndexError:
                     return [(st, RaiseV("IndexError", None, "index"))]
+    if isinstance(base, LitDict):
+        ks = _simp(idx.t) if isinstance(idx, StrV) else None
+        if ks is not None and z3.is_string_value(ks):
+            if ks.as_string() in base.items:
+                return [(st, base.items[ks.as_string()])]
+            return [(st, RaiseV("KeyError", None, f"L{getattr(node, 'lineno', 0)}"))]
+        raise Unsupported("symbolic key into literal dict")
     if isinstance(base, ObjV):
         h = eng.registry.getitem_hook(base.cls)
         if h is not None:
@@ -517,6 +524,11 @@ def mutate(eng, st, recv, meth, pos, kw, node):
         return [(st, ListV(recv.elem, z3.Concat(recv.t, seq)), NONE)]
     if isinstance(recv, SetV) and meth == "add":
         return [(st, SetV(recv.elem, z3.Store(recv.t, box(pos[0], recv.elem), True)), NONE)]
+    if isinstance(recv, ObjV) and recv.cls == "Writer" and meth == "write" and "buf" in recv.fields:
+        data = to_str(eng, pos[0]) if isinstance(pos[0], StrV) else None
+        if data is None:
+            return [(st, recv, RaiseV("TypeError", None, "write non-str"))]
+        return [(st, recv.with_field("buf", StrV(z3.Concat(recv.fields["buf"].t, data.t))), NONE)]
     if isinstance(recv, ObjV):
         h = eng.registry.mutator_hook(recv.cls, meth)
         if h is not None:
@@ -548,6 +560,8 @@ def get_attribute(eng, st, v: V, attr: str, node):
         raise Unsupported(f"attribute {attr} of opaque {v.kind!r}")
     if isinstance(v, NoneV):
         return [(st, RaiseV("AttributeError", None, f"None.{attr} L{getattr_line(node)}"))]
+    if isinstance(v, StrV) and hasattr(v, "pyobj") and attr in ("value", "name"):
+        return [(st, eng.import_const(getattr(v.pyobj, attr), attr))]
     if isinstance(v, (StrV, ListV, DictV, TupleV, IntV, RealV, LitDict)):
         return [(st, BoundMethod(v, None, attr))]
     raise Unsupported(f"getattr {attr} on {type(v).__name__}")
@@ -720,11 +734,34 @@ def str_method(eng, st, s: StrV, meth, pos, kw, node):
         if sp is not None:
             return eng.call(st, sp, [s, *pos], kw, node)
         raise Unsupported(f"str.{meth}")
-    if meth == "translate":
-        sp = eng.registry.spec_value("Str_translate", eng)
-        if sp is not None:
-            return eng.call(st, sp, [s, *pos], kw, node)
+    if meth == "translate" and len(pos) == 1 and isinstance(pos[0], ConstV) and isinstance(pos[0].obj, dict):
+        eng.trusted_used.add("str.translate(table): per-character map, defined recursively over the string (builtin model)")
+        return [(st, StrV(translate_fn(pos[0].obj)(t)))]
     raise Unsupported(f"str.{meth}")
+
+
+_TRANSLATE_CACHE: dict = {}
+
+
+def translate_fn(table: dict):
+    """Recursive function implementing str.translate for a constant {ord: str|None} table."""
+    import hashlib
+
+    items = tuple(sorted((int(k), v) for k, v in table.items()))
+    if items in _TRANSLATE_CACHE:
+        return _TRANSLATE_CACHE[items]
+    h = hashlib.sha1(repr(items).encode()).hexdigest()[:8]
+    f = z3.RecFunction(f"translate_{h}", z3.StringSort(), z3.StringSort())
+    x = z3.String(f"translate_{h}!s")
+    c = z3.SubString(x, 0, 1)
+    m = c
+    for k, v in reversed(items):
+        rep = z3.StringVal("" if v is None else (v if isinstance(v, str) else chr(v)))
+        m = z3.If(c == z3.StringVal(chr(k)), rep, m)
+    z3.RecAddDefinition(f, [x], z3.If(z3.Length(x) == 0, z3.StringVal(""),
+                                      z3.Concat(m, f(z3.SubString(x, 1, z3.Length(x) - 1)))))
+    _TRANSLATE_CACHE[items] = f
+    return f
 
 
 def re_sub_fn(pattern: str):
@@ -739,6 +776,14 @@ def regex_method(eng, st, pat, meth, pos, kw, node):
     if meth == "sub" and len(pos) == 2 and all(isinstance(p, StrV) for p in pos):
         eng.trusted_used.add(f"re.sub for pattern {pat.pattern!r}: uninterpreted function of (repl, text)")
         return [(st, StrV(re_sub_fn(pat.pattern)(pos[0].t, pos[1].t)))]
+    if meth in ("match", "search", "fullmatch") and len(pos) == 1 and isinstance(pos[0], StrV):
+        from . import regexinc
+
+        lang = regexinc.match_language(pat, meth)
+        eng.trusted_used.add(f"re.{meth} for pattern {pat.pattern[:40]!r}: translated to an SMT regex (pyvc/regexinc.py); match object abstracted")
+        hit = z3.InRe(pos[0].t, lang)
+        m = ObjV("Match", {"string": pos[0], "_pattern": ConstV(pat)})
+        return [(st, UnionV([(hit, m), (z3.Not(hit), NONE)]))]
     raise Unsupported(f"regex method {meth}")
 
 
@@ -1144,6 +1189,12 @@ def _b_min_max(which):
 def _b_any_all(which):
     def f(eng, st, pos, kw):
         items = concrete_items(eng, pos[0])
+        if items is None and isinstance(pos[0], ListV) and pos[0].elem == K_BOOL:
+            k = z3.FreshConst(z3.IntSort(), "ak")
+            rng = And(k >= 0, k < z3.Length(pos[0].t))
+            if which == "any":
+                return [(st, BoolV(z3.Exists([k], And(rng, pos[0].t[k]))))]
+            return [(st, BoolV(z3.ForAll([k], z3.Implies(rng, pos[0].t[k]))))]
         if items is None:
             raise Unsupported(f"{which} over symbolic iterable")
         ts = [eng.truthy(i) for i in items]
